@@ -70,6 +70,9 @@ def generate(rng, tier, idx):
         shaped_muts = []
     sc = {'prop': ID, 'order_key': '%016x' % rng.getrandbits(64), 'tree': g['tree'],
           'manifests': g['manifests'], 'op': op, 'muts': []}
+    if op in ('verify', 'verify-sub', 'verify-kg', 'update') and rng.random() < 0.3:
+        # with a last_mtime later than every file: contents need not be read, the files are still opened and stat'ed
+        sc['lm'] = True
     if op == 'verify-sub':
         subs = [d for d in info['view_dirs'] if d and not any(c.startswith('.') for c in d.split('/'))]
         sc['sub'] = rng.choice(subs) if subs else ''
@@ -131,10 +134,11 @@ def run_op(sc, w, seam, mismatches, extra=None):
     def handler(e):
         mismatches.append((e.path, [tuple(d) for d in e.diff]))
         return False
+    lmk = {'last_mtime': w.epoch_ns / 1e9 + 10**6} if sc.get('lm') else {}
     with seam:
         seam.begin_op(0)
         if op in ('verify', 'verify-sub'):
-            r = call(lambda: ManifestRecursiveLoader(top).assert_directory_verifies(sc.get('sub', '')))
+            r = call(lambda: ManifestRecursiveLoader(top).assert_directory_verifies(sc.get('sub', ''), **lmk))
         elif op == 'verify-retry':
             box = {}
 
@@ -147,7 +151,7 @@ def run_op(sc, w, seam, mismatches, extra=None):
                     # the first call failed with the injected (one-shot) error: same loader, once more
                     extra['retry'] = call(lambda: box['m'].assert_directory_verifies(''))
         elif op == 'verify-kg':
-            r = call(lambda: ManifestRecursiveLoader(top).assert_directory_verifies('', fail_handler=handler))
+            r = call(lambda: ManifestRecursiveLoader(top).assert_directory_verifies('', fail_handler=handler, **lmk))
         elif op == 'cli-verify':
             c = run_cli(['verify', w.root])
             r = cli_to_r(c)
@@ -160,7 +164,7 @@ def run_op(sc, w, seam, mismatches, extra=None):
         elif op == 'update':
             def upd():
                 m = ManifestRecursiveLoader(top, hashes=sc.get('hashes', ['SHA256']))
-                m.update_entries_for_directory('')
+                m.update_entries_for_directory('', **lmk)
                 m.save_manifests()
                 return True
             r = call(upd)
